@@ -238,7 +238,7 @@ func qlens(qs map[vaa.ChainID]chan *gossipv1.ObservationRequest) string {
 func genC17(t *rapid.T) c17Case {
 	c := c17Case{Caps: rapid.SliceOfN(rapid.IntRange(0, 3), 3, 3).Draw(t, "caps")}
 	op := rapid.Custom(func(t *rapid.T) []c17Op {
-		switch rapid.SampledFrom([]string{"request", "request", "request", "request", "advance", "advance", "drain", "window", "window", "flood", "flood-lapse"}).Draw(t, "k") {
+		switch rapid.SampledFrom([]string{"request", "request", "request", "request", "advance", "advance", "drain", "window", "window", "flood", "flood-lapse", "dup-while-full"}).Draw(t, "k") {
 		case "advance":
 			return []c17Op{{K: "advance", Secs: rapid.OneOf(rapid.IntRange(1, 1500), rapid.SampledFrom([]int{60, 300, 420, 659, 660, 661, 1079, 1080, 1081, 1140})).Draw(t, "secs")}}
 		case "drain":
@@ -248,6 +248,14 @@ func genC17(t *rapid.T) c17Case {
 			tx := rapid.IntRange(0, 5).Draw(t, "tx")
 			return []c17Op{{K: "drain", Chain: ch}, {K: "request", Chain: ch, Tx: tx}, {K: "flood", Chain: rapid.SampledFrom(c17Known).Draw(t, "fchain"), Secs: rapid.SampledFrom([]int{40, 300, 1100, 1600}).Draw(t, "n")},
 				{K: "advance", Secs: rapid.IntRange(1, 600).Draw(t, "in")}, {K: "request", Chain: ch, Tx: tx}}
+		case "dup-while-full": // a transaction is forwarded; its repeat arrives while that watcher's queue is full; the queue drains; it is asked for again
+			ch := rapid.SampledFrom(c17Known).Draw(t, "chain")
+			tx := rapid.IntRange(0, 5).Draw(t, "tx")
+			out := []c17Op{{K: "drain", Chain: ch}, {K: "request", Chain: ch, Tx: tx}}
+			for j := 0; j < 3; j++ { // capacities are 0..3: three more fill any queue
+				out = append(out, c17Op{K: "request", Chain: ch, Tx: 20 + j})
+			}
+			return append(out, c17Op{K: "request", Chain: ch, Tx: tx}, c17Op{K: "drain", Chain: ch}, c17Op{K: "advance", Secs: rapid.IntRange(1, 500).Draw(t, "in")}, c17Op{K: "request", Chain: ch, Tx: tx})
 		case "flood-lapse": // many transactions forwarded at once, the window lapses for all of them, some are asked for again
 			ch := rapid.SampledFrom(c17Known).Draw(t, "chain")
 			fl := rapid.IntRange(0, 3).Draw(t, "floodid")
